@@ -174,6 +174,32 @@ OpInsert(kind, x, i, a) ==
   /\ LET cs == SeqCells(h, x)
          cells == SubSeq(cs, 1, i) \o <<ValOf(a)>> \o SubSeq(cs, i + 1, Len(cs)) IN
      h' = Def(Alloc(h, kind, cells, Len(cells)), NewId(h), Op("insert-index", kind, <<a>>, x, 0, i, 0, "", FALSE))
+\* (zip kind X Y): a fresh sequence of fresh two-element sequences (all of the given kind) holding the SAME elements
+RECURSIVE ZipAlloc(_, _, _, _, _)
+ZipAlloc(s, kind, cx, cy, i) ==     \* allocates the pairs i..n, returns the state and the references in order
+  IF i > Len(cx) \/ i > Len(cy) THEN [s |-> s, refs |-> <<>>]
+  ELSE LET id == Len(s.obj) + 1
+           r == ZipAlloc(Alloc(s, kind, <<cx[i], cy[i]>>, 2), kind, cx, cy, i + 1) IN
+       [s |-> r.s, refs |-> <<VRef(id)>> \o r.refs]
+OpZip(kind, x, y) ==
+  /\ IsSeq(h, x) /\ IsSeq(h, y)
+  /\ LET z == ZipAlloc(h, kind, SeqCells(h, x), SeqCells(h, y), 1)
+         n == Len(z.refs)  what == Op("zip", kind, <<>>, x, y, 0, 0, "", FALSE) IN
+     /\ Len(h.obj) + n + 1 <= MAXOBJ
+     /\ h' = Def(Alloc(z.s, kind, z.refs, n), Len(z.s.obj) + 1, what)
+\* (insert-sorted kind X < v) on a sequence of integers: a fresh sequence with v at the first position whose element
+\* is not smaller (the binary search of sort.Search over the predicate (< v element))
+OpInsertSorted(kind, x, a) ==
+  /\ IsSeq(h, x) /\ a.t = "i" /\ \A k \in 1..Len(SeqCells(h, x)) : SeqCells(h, x)[k].t = "int"
+  /\ LET cs == SeqCells(h, x)  n == Len(cs)  v == a.n
+         \* sort.Search(n, f): smallest index in [0, n] with f true, assuming f is monotone; on an unsorted sequence the
+         \* probes decide - transcribed literally
+         f(k) == v < cs[k + 1].n
+         Search[lo \in 0..n, hi \in 0..n] == IF lo >= hi THEN lo
+                                            ELSE LET m == (lo + hi) \div 2 IN IF ~f(m) THEN Search[m + 1, hi] ELSE Search[lo, m]
+         i == Search[0, n]
+         cells == SubSeq(cs, 1, i) \o <<VInt(v)>> \o SubSeq(cs, i + 1, n) IN
+     h' = Def(Alloc(h, kind, cells, Len(cells)), NewId(h), Op("insert-sorted", kind, <<a>>, x, 0, 0, 0, "", FALSE))
 \* (map kind identity X), (select kind (lambda (e) true) X), (reject kind (lambda (e) true) X)
 OpMapLike(name, kind, x) ==
   /\ IsSeq(h, x)
@@ -258,6 +284,8 @@ Next ==
      \/ \E k \in KINDS, x \in 1..NG : OpReverse(k, x)
      \/ \E k \in KINDS, x \in 1..NG, i \in 0..2, a \in ARG1 : OpInsert(k, x, i, a)
      \/ \E nm \in {"map", "select", "reject"}, k \in KINDS, x \in 1..NG : OpMapLike(nm, k, x)
+     \/ \E k \in KINDS, x \in 1..NG, y \in 1..NG : OpZip(k, x, y)
+     \/ \E k \in KINDS, x \in 1..NG, a \in ARG1 : OpInsertSorted(k, x, a)
      \/ \E x \in 1..NG, as \in ARGS : OpAppendBang(x, as)
      \/ \E x \in 1..NG : OpSort(x)
      \/ \E x \in 1..NG, k \in {"a", "b", "c"}, sym \in BOOLEAN, a \in ARG1 : OpAssoc(x, k, sym, a) \/ OpAssocBang(x, k, sym, a)
